@@ -871,7 +871,7 @@ def run(res, tier, seed, proof):
     corpus = corpus_cases()
     for c in corpus:
         c.hops = with_ns_ops(rnd, c)
-    n = 12000 if tier == "quick" else 200000
+    n = 12000 if tier == "quick" else 150000
     cases = corpus + gen_cases(rnd, n)
     fam_hist = {}
     for c in cases:
